@@ -39,14 +39,14 @@ REQUIRED_COUNTERS = {"quick": {"judged:nd": 200, "judged:lganm": 300, "judged:an
 N = {"quick": {"n": 40000, "nd": 240, "lganm": 330, "anm": 240, "shape": 180}, "thorough": {"n": 400000, "nd": 1400, "lganm": 2000, "anm": 1400, "shape": 800}}
 
 
-def _iv(rng, p, allow_point=True, anm_safe=False):
+def _iv(rng, p, allow_point=True, anm_safe=False, unit=1.0):
     d = {"do": {}, "noise": {}, "shift": {}}
     for j in (int(v) for v in rng.permutation(p)):     # keys inserted in random, not ascending, order
         r = rng.random()
         if r > 0.45:
             continue
-        m = float(np.round(rng.uniform(-4, 4), 2))
-        v = float(np.round(rng.uniform(0.05, 4), 2))
+        m = float(np.round(rng.uniform(-4, 4), 2)) * unit
+        v = float(np.round(rng.uniform(0.05, 4), 2)) * unit * unit
         if allow_point and rng.random() < 0.3:
             v = 0.0
         kinds = ["do", "noise", "shift"]
@@ -55,7 +55,7 @@ def _iv(rng, p, allow_point=True, anm_safe=False):
         if rng.random() < 0.25:       # overlaps
             k2 = kinds[int(rng.integers(3))]
             if k2 != k and not (anm_safe and {k, k2} == {"noise", "shift"}):
-                d[k2][j] = (float(np.round(rng.uniform(-4, 4), 2)), float(np.round(rng.uniform(0.05, 4), 2)))
+                d[k2][j] = (float(np.round(rng.uniform(-4, 4), 2)) * unit, float(np.round(rng.uniform(0.05, 4), 2)) * unit * unit)
     return d
 
 
@@ -66,9 +66,11 @@ def _lganm(rng):
     means = np.round(rng.uniform(-3, 3, p), 2)
     variances = np.round(rng.uniform(0.05, 5, p), 2)
     variances[rng.random(p) < 0.08] = 0.0
+    unit = 1.0
     if rng.random() < 0.2:      # the law is scale-equivariant: tiny / huge units
-        sc = float(10.0 ** rng.integers(-9, 7))
-        means, variances = means * sc, variances * sc * sc
+        unit = float(10.0 ** rng.integers(-9, 7))
+        means, variances = means * unit, variances * unit * unit
+    _lganm.last_unit = unit
     return W, means, variances
 
 
@@ -97,7 +99,8 @@ def gen(tier, seed, shard, nshards):
         if k % nshards == shard:
             rng = util.rng_for("C04", seed, "lganm", i)
             W, means, variances = _lganm(rng)
-            iv = _iv(rng, len(W)) if i % 5 else {"do": {}, "noise": {}, "shift": {}}
+            # interventions in the model's own units half of the time (everything tiny / huge), else in mixed units
+            iv = _iv(rng, len(W), unit=_lganm.last_unit if i % 2 else 1.0) if i % 5 else {"do": {}, "noise": {}, "shift": {}}
             yield "lganm", {"W": W, "means": means, "variances": variances, "iv": iv, "n": cfg["n"], "rs": int(rng.integers(0, 2**32))}
         k += 1
     for i in range(cfg["anm"]):
@@ -176,6 +179,9 @@ def judge(family, case, rec):
                 sweep = dict(iv["do"])
                 first = dict((j, ((v[0] - 5.0, v[1] + 1.0) if isinstance(v, tuple) else v + 3.0)) for j, v in iv["do"].items())
                 kw_sweep = dict(kw, do_interventions=sweep)
+                if len(W) % 4 == 1:       # a sweep in steps far below print precision
+                    first = dict((j, ((v[0] * (1 + 1e-11) + 1e-13, v[1]) if isinstance(v, tuple) else v * (1 + 1e-11) + 1e-13))
+                                 for j, v in iv["do"].items())
                 sweep.update(first)
                 try:
                     model.sample(3, **kw_sweep)
